@@ -43,6 +43,133 @@ def scen_frame(m, st, nframe=None):
     return {'kind': 'handler', 'policy': 'none', 'item_limit': mval(m, limit), 'steps': steps}, len(steps) - 1
 
 
+def flat_parts(ropes):
+    out = []
+    for d in ropes:
+        for q in HC.parts_of(d):
+            if q[0] == 'lit' and len(q[1]) == 0:
+                continue
+            out.append(q)
+    return out
+
+
+def parts_equal(a, b):
+    """-> z3 formula (or python False): two flattened part lists denote the same bytes part by part"""
+    if len(a) != len(b):
+        return False
+    cs = []
+    for x, y in zip(a, b):
+        if x[0] != y[0]:
+            return False
+        if x[0] == 'bv':
+            if x[1].size() != y[1].size():
+                return False
+            cs.append(x[1] == y[1])
+        elif x[0] == 'buf':
+            if not x[1].base.eq(y[1].base):
+                return False
+            cs.append(z3.And(x[1].off == y[1].off, x[1].len == y[1].len))
+        elif x[0] in ('val', 'dec'):
+            cs.append(x[1] == y[1])
+        elif x[0] == 'lit':
+            if x[1] != y[1]:
+                return False
+        else:
+            return False
+    return z3.And(cs) if cs else z3.BoolVal(True)
+
+
+def connection_level(ck, tier):
+    """what reaches the socket is what the encoder produces: the real Client::handle on [get-family request on a stored item of
+    any length up to 2 MiB][noop]; every response handed to MemcacheBinaryConnection::write is encoded separately with
+    encode_message (whose output the handler-level part of this check proves well-formed) and must equal, part by part, the
+    bytes written to the socket, in order and with nothing in between"""
+    from . import sock_common as SC
+    from .C12 import native_seq
+    from mirse.models.bytesm import vlen
+    from . import store_replay as SR
+    E = ck.E
+    st = St(1)
+    key = b'kk'
+    for op in GET_FAMILY:
+        req = frame(op, key, opaque=0x11223344) + frame(0x0a, opaque=0x5a5a5a5a)
+
+        def h(E, req=req):
+            E.assume(SC.limit == (1 << 22), st.present[0], st.live(0), z3.ULE(vlen(st.val[0]), 1 << 21), st.now == 1000, z3.ULE(st.cas_id, 1000))
+            for c in st.wellformed():
+                E.assume(c)
+            from .store_checks import pre_assumptions
+            for c in pre_assumptions(st, 1):
+                E.assume(c)
+            for j, b in enumerate(req):
+                E.assume(z3.Select(HC.WIRE, BV(j)) == b)
+                E.known_bytes[j] = b
+            s = SC.Stream(0)
+            s.total = BV(len(req))
+            x = SC.run_client(E, st, s, end='eof', max_reads=3)
+            x.nreads = sum(1 for e in E.events if e[0] == 'read' and not isinstance(e[1], str))
+            # the encoder's own output for every response that was handed to the connection
+            enc = E.fn('MemcacheBinaryCodec', 'encode_message')
+            codec = E.alloc(new_codec(SC.limit))
+            x.expected = []
+            for resp in x.responses:
+                rc = E.alloc(resp)
+                msg = E.call(enc, [Ref(codec), Ref(rc)])
+                x.expected.append(HC.fld(E, msg, 'ResponseMessage', 'data'))
+            return x
+        res = ck.explore(h)
+        for p in res:
+            if p.status == 'panic':
+                ck.obligation(f'connection: no panic while answering opcode 0x{op:02x}', p.pc, z3.BoolVal(False), {}, None, [])
+                continue
+            if p.status != 'ok':
+                continue
+            x = p.out
+            try:
+                eq = parts_equal(flat_parts(x.out), flat_parts(x.expected))
+            except Unsupported:
+                eq = False
+
+            def on_w(m, where, x=x, op=op):
+                try:
+                    C = SR.Concretizer(m)
+                    val = C.val(st.val[0])
+                except ValueError as ex:
+                    return None, f'cannot concretise: {ex}', None
+                fl = mval(m, st.flags[0])
+                setf = frame(0x01, key, struct.pack('>II', fl, 0), val, opaque=7)
+                sc = {'kind': 'socket', 'item_limit': 1 << 22, 'timeout_secs': 2,
+                      'conns': [{'chunks': [setf.hex(), req.hex()], 'pause_ms': 60, 'read_ms': 1200, 'end': 'hold'}]}
+                out = ck.replay([sc])[0]
+                got = bytes.fromhex(out['conns'][0].get('received', '')) + bytes.fromhex(out['conns'][0].get('later_received', ''))
+                # an independent reader: frame by frame, each body_length must be exactly what follows
+                pos, frames_, bad = 0, [], None
+                while pos < len(got):
+                    if len(got) - pos < 24:
+                        bad = f'{len(got) - pos} stray bytes at the end'
+                        break
+                    r = parse_response(got[pos:])
+                    if r['magic'] != 0x81 or pos + 24 + r['body'] > len(got):
+                        bad = f"frame at byte {pos}: magic 0x{r['magic']:02x}, body_length {r['body']} with {len(got) - pos - 24} bytes left"
+                        break
+                    frames_.append(r)
+                    pos += 24 + r['body']
+                want_key = key if op in (0x0c, 0x0d) else b''
+                if bad is None:
+                    g = [f for f in frames_ if f['opcode'] == op]
+                    if len(g) != 1 or g[0]['status'] != 0 or g[0]['key'] != want_key or g[0]['value'] != val or g[0]['opaque'] != 0x11223344:
+                        bad = f"get response: {[(hex(f['opcode']), f['status'], f['keylen'], len(f['value'])) for f in g]} (expected 1 hit with key {want_key!r} and the {len(val)}-byte value)"
+                    elif not frames_ or frames_[-1]['opcode'] != 0x0a or frames_[-1]['opaque'] != 0x5a5a5a5a:
+                        bad = 'the noop behind the get is not answered in step'
+                desc = f"get opcode 0x{op:02x} on a {len(val)}-byte item followed by a noop over loopback: " + (bad or 'stream well-formed')
+                return (True if bad else None), desc, sc
+            small = [z3.ULE(vlen(st.val[0]), 100), z3.ULE(vlen(st.val[0]), 70000), z3.ULE(vlen(st.val[0]), 300000)]
+            ck.obligation(f'connection: the bytes written for opcode 0x{op:02x} and the noop are exactly the encoder\'s output, in order', p.pc,
+                          eq if not isinstance(eq, bool) else z3.BoolVal(eq), {}, on_w, small)
+            ck.cover(f'connection: get 0x{op:02x} answered', len(x.responses) >= 1)
+    ck.bounds['connection'] = 'Client::handle on [get-family request][noop], stored value of any length <= 2 MiB, <= 3 reads'
+
+
 def run(tier, seed, replay_path=None):
     ck = Check('C11', tier, seed)
     if replay_path:
@@ -140,6 +267,7 @@ def run(tier, seed, replay_path=None):
     for need in ('response:Get', 'response:Set', 'response:Increment', 'response:ItemTooLarge', 'response:Version', 'response:NotSupported',
                  'silent:SetQuietly', 'silent:GetQuietly'):
         ck.covers.setdefault(need, False)
+    connection_level(ck, tier)
     return ck.finish()
 
 
